@@ -5,6 +5,7 @@ processing independent of batch composition, c gather-from-all-pointers + sort,
 d injective ordering key, e pointer registration appends.  Hash-seed clause: N/A.
 """
 import ast
+import re
 from sa.model import unparse, norm_stmt, call_name, walk_no_nested, kwarg
 from sa.cfg import CFG, iteration_paths
 from sa import guards as G
@@ -312,9 +313,19 @@ def run(chk, repo):
     chk.rule('C06.c', 'gather from all pointers, sort; registration appends', 7)
     gi = repo.func('seqvar.VariantRecordPoolOnDisk:VariantRecordPoolOnDisk.__getitem__')
     chk.uses(gi)
-    pl = [l for l in G.find_for(gi.node) if unparse(l.iter) == 'self.pointers[key]']
-    ok = len(pl) == 1 and any(isinstance(s, ast.AugAssign) and call_name(s.value) == 'load' and unparse(s.value.func.value) == unparse(pl[0].target)
-                              for s in pl[0].body if isinstance(s, ast.AugAssign) and isinstance(s.value, ast.Call)) \
+    pl = [l for l in G.find_for(gi.node) if re.fullmatch(r'self\.pointers\[\w+\]', unparse(l.iter))]
+    def accumulates(lp):
+        """the loop body adds <target>.load() to an accumulator on every iteration: acc += p.load() / acc.extend(p.load()) / acc.update(...)"""
+        tg = unparse(lp.target)
+        for s_ in lp.body:
+            if isinstance(s_, ast.AugAssign) and isinstance(s_.op, ast.Add) and isinstance(s_.value, ast.Call) and call_name(s_.value) == 'load' \
+                    and unparse(s_.value.func.value) == tg:
+                return True
+            if isinstance(s_, ast.Expr) and isinstance(s_.value, ast.Call) and call_name(s_.value) in ('extend', 'update') and len(s_.value.args) == 1 \
+                    and isinstance(s_.value.args[0], ast.Call) and call_name(s_.value.args[0]) == 'load' and unparse(s_.value.args[0].func.value) == tg:
+                return True
+        return False
+    ok = len(pl) == 1 and accumulates(pl[0]) \
         and not any(isinstance(n, (ast.Break, ast.Return, ast.Continue)) for s in pl[0].body for n in ast.walk(s))
     chk.ob('C06.c', '__getitem__ loads every pointer of the key', gi.where, ok,
            '__getitem__ does not accumulate pointer.load() over all pointers of the key (records from some files lost)',
